@@ -6,14 +6,14 @@ from symex.run import Harness
 from . import common as C
 
 
-def decode_totality(F, maxsep):
+def decode_totality(F, maxsep, wide_upto=None):
     """(A) Message(line) returns or raises ValueError - nothing else - for every raw line."""
     def fn(w):
         from mysensors.message import Message
         nsep = w.choose(maxsep + 1, "separators")
         fields = []
         for i in range(nsep + 1):
-            f_ = w.fresh_str(f"f{i}", F)
+            f_ = w.fresh_str(f"f{i}", F if wide_upto is None or nsep <= wide_upto else 1)
             if w.symbolic:
                 for c in f_.cs:
                     w.p.add(z3.Not(c == 59))
@@ -228,8 +228,9 @@ def build(tier):
     shapes = shapes_q if q else shapes_t
     P = 1 if q else 2
     hs = [
-        Harness("A-decode-totality", decode_totality(1 if q else 2, 7),
-                {"separators": "0..7", "field_code_points_max": 1 if q else 2},
+        Harness("A-decode-totality", decode_totality(1 if q else 2, 7, None if q else 4),
+                {"separators": "0..7", "field_code_points_max": 1 if q else "2 up to 4 separators, "
+                 "1 beyond (C02 H2b covers 5 separators with 2)"},
                 goals=["accepted", "rejected"], doc="Message(line): returns or ValueError"),
         Harness("CD-raw-step", raw_step(1, 6, ["1.4", "2.2"] if q else versions),
                 {"separators": "0..6", "field_code_points_max": 1, "state": "awake1"},
